@@ -192,6 +192,8 @@ func ZZ_C15_two_instances() {
 // one A returns, and both accept or reject the same calls.
 func ZZ_C15_history() {
 	ctx := context.Background()
+	// the iteration order of Go maps is unspecified: every order is explored
+	zzsym.NondetMapOrder(true)
 	img := &zzKV{}
 	img.put("/z", []byte("0")) // a pre-existing key (the empty image is covered by ZZ_C15_two_instances)
 	A := &KVExecutor{db: img.clone(), txChan: make(chan []byte, 8)}
@@ -200,12 +202,13 @@ func ZZ_C15_history() {
 	gB, _, errB := B.InitChain(ctx, time.Unix(0, 0), 1, "c")
 	zzsym.Assert(errA == nil && errB == nil && bytes.Equal(gA, gB), "same-genesis-root")
 	// the calls
-	menu1 := []string{"a=1", "a=2", "b=1", " c = 3 ", "nokv"}
+	// ("a", "/a" and "a/" are spellings of one key)
+	menu1 := []string{"a=1", "/a=2", "b=1", "a/=3", " c = 3 ", "nokv"}
 	var b1 [][]byte
 	if zzsym.Bool("b1.two") {
-		b1 = [][]byte{[]byte(menu1[zzsym.Pick("b1.tx", 3)]), []byte(menu1[zzsym.Pick("b1.tx", 3)])}
+		b1 = [][]byte{[]byte(menu1[zzsym.Pick("b1.tx", 4)]), []byte(menu1[zzsym.Pick("b1.tx", 4)])}
 	} else {
-		b1 = [][]byte{[]byte(menu1[zzsym.Pick("b1.tx", 5)])}
+		b1 = [][]byte{[]byte(menu1[zzsym.Pick("b1.tx", 6)])}
 	}
 	b2 := [][]byte{[]byte(zzTxs[zzsym.Pick("b2.tx", len(zzTxs))])}
 	type call struct {
